@@ -188,6 +188,7 @@ func decodeComp(comp *comp) (*CalendarCompRequest, error) {
 	}
 
 	req := &CalendarCompRequest{
+		Name:     comp.Name,
 		AllProps: comp.Allprop != nil,
 		AllComps: comp.Allcomp != nil,
 	}
@@ -205,18 +206,45 @@ func decodeComp(comp *comp) (*CalendarCompRequest, error) {
 }
 
 func decodeCalendarDataReq(calendarData *calendarDataReq) (*CalendarCompRequest, error) {
-	if calendarData.Comp == nil {
-		return &CalendarCompRequest{
-			AllProps: true,
-			AllComps: true,
-		}, nil
+	req := &CalendarCompRequest{
+		AllProps: true,
+		AllComps: true,
 	}
-	return decodeComp(calendarData.Comp)
+	if calendarData.Comp != nil {
+		var err error
+		req, err = decodeComp(calendarData.Comp)
+		if err != nil {
+			return nil, err
+		}
+	}
+	if calendarData.Expand != nil {
+		req.Expand = &CalendarExpandRequest{
+			Start: time.Time(calendarData.Expand.Start),
+			End:   time.Time(calendarData.Expand.End),
+		}
+	}
+	return req, nil
+}
+
+// decodePropCalendarDataReq decodes the calendar-data request of a REPORT's
+// DAV:prop element, if any.
+func decodePropCalendarDataReq(prop *internal.Prop) (*CalendarCompRequest, error) {
+	var calendarData calendarDataReq
+	if err := prop.Decode(&calendarData); err != nil && !internal.IsNotFound(err) {
+		return nil, err
+	}
+	return decodeCalendarDataReq(&calendarData)
 }
 
 func (h *Handler) handleQuery(r *http.Request, w http.ResponseWriter, query *calendarQuery) error {
 	var q CalendarQuery
-	// TODO: calendar-data in query.Prop
+	if query.Prop != nil {
+		dataReq, err := decodePropCalendarDataReq(query.Prop)
+		if err != nil {
+			return err
+		}
+		q.CompRequest = *dataReq
+	}
 	cf, err := decodeCompFilter(&query.Filter.CompFilter)
 	if err != nil {
 		return err
@@ -254,11 +282,7 @@ func (h *Handler) handleQuery(r *http.Request, w http.ResponseWriter, query *cal
 func (h *Handler) handleMultiget(ctx context.Context, w http.ResponseWriter, multiget *calendarMultiget) error {
 	var dataReq CalendarCompRequest
 	if multiget.Prop != nil {
-		var calendarData calendarDataReq
-		if err := multiget.Prop.Decode(&calendarData); err != nil && !internal.IsNotFound(err) {
-			return err
-		}
-		decoded, err := decodeCalendarDataReq(&calendarData)
+		decoded, err := decodePropCalendarDataReq(multiget.Prop)
 		if err != nil {
 			return err
 		}
